@@ -1,5 +1,6 @@
 import HbsModel.Registry
 import HbsModel.Lemmas.RM
+import HbsModel.Lemmas.Assoc
 import HbsModel.Props.C02
 /-
   C14  Name resolution: helper before field, explicit paths always data, hooks last.
@@ -114,6 +115,27 @@ theorem decorator_effects_are_sequential (reg : Registry) (root : Json) (fuel : 
         renderElems reg root fuel tn es (m.drop 1)) := by
   simp only [renderElems]
   rfl
+
+/-! ### local helpers registered by decorators: the latest registration of a name is the one consulted -/
+
+/-- a decorator that registers a local helper binds the name for what is rendered after it, whatever the name was bound to
+    before (an earlier local helper of that name included), and touches nothing else -/
+theorem local_helper_registration (reg : Registry) (root : Json) (fuel : Nat) (dt : DecoT) (di : DecoI) (n tag : Str)
+    (rc rc1 : RC) (out out1 : Out)
+    (hd : decoFromTemplate reg root fuel dt rc out = .ok di rc1 out1)
+    (hk : assocGet reg.decorators di.name = some .sethelper)
+    (hn : (di.params[0]?).bind (·.json.asStr?) = some n) (ht : (di.params[1]?).bind (·.json.asStr?) = some tag) :
+    evalDecorator reg root (fuel + 1) dt rc out
+      = .ok () { rc1 with localHelpers := hashInsert rc1.localHelpers n (.mark tag) } out1 := by
+  simp [evalDecorator, RM.bnd_apply, hd, hk, hn, ht, RM.modifyAux]
+
+/-- after two registrations of the same name the second answers (`local_before_registry` then routes every tag of that name
+    to it); every other name keeps its helper -/
+theorem later_local_helper_wins (ls : List (Str × HelperKind)) (n : Str) (h1 h2 : HelperKind) :
+    assocGet (hashInsert (hashInsert ls n h1) n h2) n = some h2 ∧
+    ∀ q, q ≠ n → assocGet (hashInsert (hashInsert ls n h1) n h2) q = assocGet ls q := by
+  refine ⟨assocGet_insert_same _ _ _, fun q hq => ?_⟩
+  rw [assocGet_insert_other _ _ _ _ hq, assocGet_insert_other _ _ _ _ hq]
 
 /-! ### explicit path spellings always read the data – at source level -/
 
